@@ -454,7 +454,58 @@ def r2_5(repo: Repo) -> RuleResult:
     return rr
 
 
-RULES = [r2_1, r2_2, r2_3, r2_4, r2_5]
+# --------------------------------------------------------------------------- R2.6
+_LIB_TRANSFORMS = {"sklearn.preprocessing.normalize", "numpy.power", "numpy.sqrt", "sklearn.preprocessing.scale"}
+
+
+def _lib_facts(repo: Repo, c: Cls, entries) -> Dict[Tuple, List[Tuple[Func, ast.Call]]]:
+    """(library callee, constant keyword arguments, configuration operands) for the library
+    data transformations applied on the given entry paths."""
+    out: Dict[Tuple, List[Tuple[Func, ast.Call]]] = {}
+    tr = repo.resolve_method(c, "transform")
+    for e in entries:
+        for f in repo.reachable_from(c, e):
+            if e != "transform" and f is tr:
+                continue  # a fit path that delegates to self.transform says nothing about agreement
+            for call in repo.calls_in(f):
+                canon = repo.canonical(f.module, call.func)
+                if canon not in _LIB_TRANSFORMS:
+                    continue
+                kws = tuple(sorted((k.arg, norm(k.value)) for k in call.keywords if k.arg and isinstance(k.value, ast.Constant)))
+                # configuration operands: self.<ctor param> anywhere in the positional arguments after the data
+                conf = tuple(sorted({"self." + a for x in call.args[1:] for a in self_attrs_in(x)}))
+                if canon in ("numpy.power", "numpy.sqrt") and not conf and not any(self_attrs_in(x) for x in call.args):
+                    continue  # plain arithmetic on locals
+                if canon == "numpy.sqrt":
+                    conf = tuple(sorted({"self." + a for x in call.args for a in self_attrs_in(x)}))
+                out.setdefault((canon, kws, conf), []).append((f, call))
+    return out
+
+
+def r2_6(repo: Repo) -> RuleResult:
+    rr = RuleResult("R2.6", "library data transformations on the transform path (normalize norm/axis, power exponents, scalings) are the ones used on the fit path", floor=10)
+    seen: Set[Tuple[str, int]] = set()
+    for c in exported_estimators(repo):
+        ff = _lib_facts(repo, c, ("fit", "fit_transform"))
+        tf = _lib_facts(repo, c, ("transform",))
+        for key, sites in tf.items():
+            canon, kws, conf = key
+            for f, call in sites:
+                if (f.key, call.lineno) in seen:
+                    continue
+                seen.add((f.key, call.lineno))
+                construct = "%s(%s)" % (canon.rsplit(".", 1)[1], ", ".join(["%s=%s" % kv for kv in kws] + list(conf)))
+                if key in ff:
+                    rr.ok(f, construct, "same transformation on the fit path (%s:%d)" % (ff[key][0][0].qualname, ff[key][0][1].lineno), call.lineno)
+                else:
+                    same_callee = sorted({"%s(%s)" % (k[0].rsplit(".", 1)[1], ", ".join(["%s=%s" % kv for kv in k[1]] + list(k[2]))) for k in ff if k[0] == canon})
+                    rr.bad(f, construct,
+                           "the transform path applies %s, which the fit path of %s never does (fit path uses: %s): the training data and new "
+                           "data go through different transformations" % (construct, c.name, same_callee or "no such call"), call.lineno)
+    return rr
+
+
+RULES = [r2_1, r2_2, r2_3, r2_4, r2_5, r2_6]
 
 CLAIM = (
     "R2.1 every normal exit of every estimator's fit is `return self` (CFG); R2.2 fit/fit_transform are one pipeline "
@@ -462,7 +513,7 @@ CLAIM = (
     "arguments and attribute write sets); R2.3 every repository function called from both the fit path and the "
     "transform path of a class gets the same configuration arguments (presence and closed-form equality of bound "
     "arguments, fitted state may replace configuration); R2.4 fit_transform may return its input unchanged only "
-    "where transform can as well; R2.5 sibling branches filling the same accumulator consume their source the same way."
+    "where transform can as well; R2.5 sibling branches filling the same accumulator consume their source the same way; R2.6 library data transformations (normalize norm/axis, power exponents, scalings by fitted values) on the transform path also occur on the fit path."
 )
 NOT_DECIDED = (
     "numerical equality of SVD outputs (u*s vs X @ V^T) and that BPE's incremental training merges equal the "
